@@ -118,6 +118,7 @@ func dispScenarios(prop string) []*Scenario {
 		mk("get-multi-vs-close-provider", false, []Op{{Kind: "get", Scope: "s1", T: "D4"}}, []Op{{Kind: "close", Scope: ""}}),
 		mk("provider-get-vs-close-provider", false, []Op{{Kind: "get", Scope: "", T: "D2"}}, []Op{{Kind: "close", Scope: ""}}),
 		mk("create-scope-init-vs-close-provider", true, []Op{{Kind: "scope", Scope: "", Bind: "s2"}}, []Op{{Kind: "close", Scope: ""}}),
+		mk("create-child-init-vs-close-provider", true, []Op{{Kind: "scope", Scope: "s1", Bind: "s2"}, {Kind: "get", Scope: "s2", T: "D4"}}, []Op{{Kind: "close", Scope: ""}}),
 		mk("create-child-init-vs-close-scope", true, []Op{{Kind: "scope", Scope: "s1", Bind: "s2"}, {Kind: "get", Scope: "s2", T: "D4"}}, []Op{{Kind: "close", Scope: "s1"}}),
 	}
 }
@@ -154,7 +155,7 @@ func init() {
 	registerDisp("C11", "same histories as C10 without faults (the property quantifies over configurations and histories, not schedules); oracle on the global stamp sequence: within one owner (each scope; the singleton set) close order is exactly reverse creation order; every close in a descendant scope precedes every own-instance close of its ancestor; every scope-owned close (root scope included) precedes every singleton close.")
 	mc.Register(&mc.Check{
 		Prop: "C12", MinOutcomes: 10,
-		Rule: "fault sequences: a tree of 4 scopes (provider > s1 > {s2, s3}) owning 8 disposables (2 singletons, scoped + transient per scope): every subset of the 8 Close methods failing x every node closed first, then the same node again, then the provider twice; schedules: 2 and 3 concurrent Close on one scope, Close || cancel, Close(child) || Close(parent) || Close(provider), bound 2/3, with failing instances. Oracle: every owned instance attempted exactly once; the first Close returns a DisposalError iff a failing instance is in its subtree, every injected error is reachable from exactly one returned error (none for closes done by the cancellation watcher), repeated / losing Closes return nil.",
+		Rule:   "fault sequences: a tree of 4 scopes (provider > s1 > {s2, s3}) owning up to 8 disposables (2 singletons, scoped + transient per scope; every subset of the 6 resolutions performed, so that scopes owning nothing occur): every subset (all 256 when everything is resolved, all subsets for <=4 scope-owned instances, singles and pairs otherwise) of the Close methods failing x every node closed first, then the same node again, then the provider twice; schedules: 2 and 3 concurrent Close on one scope, Close || cancel, Close(child) || Close(parent) || Close(provider), bound 2/3, with failing instances. Oracle: every owned instance attempted exactly once; the first Close returns a DisposalError iff a failing instance is in its subtree, every injected error is reachable from exactly one returned error (none for closes done by the cancellation watcher), repeated / losing Closes return nil.",
 		Assume: []string{"DisposalError.Errors is descended recursively together with errors.Unwrap"},
 		Jobs:   c12Jobs,
 	})
@@ -331,6 +332,7 @@ func keys(m map[string]bool) []string {
 type c12Case struct {
 	Fail  []string `json:"fail"`
 	First string   `json:"first"`
+	Skip  int      `json:"skip"` // bit i set: resolution i of the setup is not performed (that scope owns less)
 }
 
 func c12Seq(r *mc.Report, firsts []string) {
@@ -346,7 +348,15 @@ func c12Seq(r *mc.Report, firsts []string) {
 			if e.Prov == nil {
 				return
 			}
+			gi := 0
 			for _, op := range c12Setup() {
+				if op.Kind == "get" {
+					skip := c.Skip&(1<<gi) != 0
+					gi++
+					if skip {
+						continue
+					}
+				}
 				e.Do(op)
 			}
 			var first Op
@@ -370,7 +380,7 @@ func c12Seq(r *mc.Report, firsts []string) {
 		r.States++
 		r.Validated++
 		r.Transitions += int64(len(e.Results))
-		r.Outcome(fmt.Sprintf("first=%s fail=%d | %s", c.First, len(c.Fail), closeSummary(e)))
+		r.Outcome(fmt.Sprintf("first=%s fail=%d skip=%d | %s", c.First, len(c.Fail), c.Skip, closeSummary(e)))
 		fs := append(genericFindings(e, s), c12Oracle(e, s)...)
 		// sequential expectations: first close's verdict, later closes nil
 		seen := map[string]bool{}
@@ -411,14 +421,41 @@ func c12Seq(r *mc.Report, firsts []string) {
 		return
 	}
 	for _, first := range firsts {
-		for mask := 0; mask < 1<<len(c12Labels); mask++ {
-			var fail []string
-			for i, l := range c12Labels {
-				if mask&(1<<i) != 0 {
-					fail = append(fail, l)
+		for skip := 0; skip < 64; skip++ {
+			// labels of the instances that exist under this skip mask: serials are assigned in creation order
+			labels := []string{"r0#1.0", "r1#1.0"}
+			n2, n3 := 0, 0
+			for gi := 0; gi < 6; gi++ {
+				if skip&(1<<gi) != 0 {
+					continue
+				}
+				if gi%2 == 0 {
+					n2++
+					labels = append(labels, fmt.Sprintf("r2#%d.0", n2))
+				} else {
+					n3++
+					labels = append(labels, fmt.Sprintf("r3#%d.0", n3))
 				}
 			}
-			run(c12Case{Fail: fail, First: first})
+			if skip != 0 && len(labels) > 6 {
+				// with few skipped resolutions use single and pair failures only (the full subsets are covered by skip=0)
+				for i := range labels {
+					run(c12Case{Fail: []string{labels[i]}, First: first, Skip: skip})
+					for j := i + 1; j < len(labels); j++ {
+						run(c12Case{Fail: []string{labels[i], labels[j]}, First: first, Skip: skip})
+					}
+				}
+				continue
+			}
+			for mask := 0; mask < 1<<len(labels); mask++ {
+				var fail []string
+				for i, l := range labels {
+					if mask&(1<<i) != 0 {
+						fail = append(fail, l)
+					}
+				}
+				run(c12Case{Fail: fail, First: first, Skip: skip})
+			}
 		}
 	}
 }
